@@ -126,8 +126,12 @@ impl<'a> Remote<'a> {
                     .waker
                     .with(|waker| cx.waker().will_wake(unsafe { (&*waker).assume_init_ref() }))
             {
-                // Waker is already up-to-date, leave it in place.
-                self.header().state.finish_setting_waker::<true>();
+                // Waker is already up-to-date, leave it in place. As below, the task may
+                // have completed while the setting-waker flag was held.
+                state = self.header().state.finish_setting_waker::<true>();
+                if state.has_result() || state.is_cancelled() {
+                    continue;
+                }
                 break Poll::Pending;
             }
 
@@ -146,7 +150,14 @@ impl<'a> Remote<'a> {
                 waker.write(cx.waker().clone());
             });
 
-            self.header().state.finish_setting_waker::<true>();
+            // The task may have completed (or been cancelled) while the waker was being
+            // set. In that case `Task::run` saw the setting-waker flag and did not wake
+            // anyone, so the state has to be looked at again instead of returning
+            // `Pending` with nobody left to wake us.
+            state = self.header().state.finish_setting_waker::<true>();
+            if state.has_result() || state.is_cancelled() {
+                continue;
+            }
 
             break Poll::Pending;
         }
